@@ -259,6 +259,8 @@ def fit_shapes(run, repo, tables):
                 if isinstance(v, ast.BinOp) and isinstance(v.op, ast.Mult) and isinstance(v.left, ast.List) \
                         and len(v.left.elts) == 1:
                     vecs = [('a[i]', v.left.elts[0])]
+                elif isinstance(v, ast.ListComp):
+                    vecs = [('a[i]', v.elt)]
                 elif isinstance(v, ast.Name):
                     items = sh.collector_items(v.id)
                     if not items:
